@@ -70,6 +70,19 @@ def check_eigh(ctx, A, v, m, kd, detail_extra=None):
         ctx.close('eigh.ritz-rayleigh', ray, 1e-8, 'Rayleigh quotient of a Ritz vector != Ritz value', detail)
 
 
+def exact_expm_apply(A, dt, v):
+    """expm(dt A) v: through the eigen-decomposition for Hermitian A (accurate for long time steps), scipy's expm otherwise."""
+    if np.array_equal(A, A.conj().T):
+        lam, U = np.linalg.eigh(A)
+        return U @ (np.exp(dt * lam) * (U.conj().T @ v))
+    return expm(dt * A) @ v
+
+
+def long_dt(rng):
+    """|Im dt| from short TDVP-like steps to long real-time steps beyond pi and 2 pi (exact multiples included)."""
+    return float(rng.choice([rng.uniform(0.05, 1.0), rng.uniform(0.05, 1.0), rng.uniform(1.0, np.pi), rng.uniform(np.pi, 4 * np.pi), np.pi, 2 * np.pi, 7.5, 31.0]))
+
+
 def check_expm(ctx, A, v, dt, m, kd_h, hermitian):
     n = len(v)
     nA = max(np.linalg.norm(A, 2), 1e-300)
@@ -87,12 +100,14 @@ def check_expm(ctx, A, v, dt, m, kd_h, hermitian):
     if hermitian and np.real(dt) == 0:
         ctx.close('expm-h.norm-preserved', abs(np.linalg.norm(r) - nv) / nv, 1e-10, 'imaginary time step changed the norm', detail)
     if m >= kd_h:
-        exact = expm(dt * A) @ v0
-        ctx.close(f'{tag}.exact-when-exhausted', np.linalg.norm(r - exact) / max(np.linalg.norm(exact), nv), 1e-9,
+        exact = exact_expm_apply(A, dt, v0)
+        # perturbations of the projected matrix (rounding, loss of orthogonality ~1e-11 near exhaustion) enter the exponential multiplied by |dt| ||A||
+        tol_x = 1e-9 * max(1.0, abs(dt) * nA)
+        ctx.close(f'{tag}.exact-when-exhausted', np.linalg.norm(r - exact) / max(np.linalg.norm(exact), nv), tol_x,
                   f'm={m} >= Krylov dimension {kd_h} but result != expm(dt A) v', detail)
 
-        def later(r=r, exact=exact, nv=nv, tag=tag):
-            ctx.close(f'{tag}.result-still-valid-after-later-calls', np.linalg.norm(r - exact) / max(np.linalg.norm(exact), nv), 1e-9, 'an earlier expm_krylov result was altered by later calls', None)
+        def later(r=r, exact=exact, nv=nv, tag=tag, tol_x=tol_x):
+            ctx.close(f'{tag}.result-still-valid-after-later-calls', np.linalg.norm(r - exact) / max(np.linalg.norm(exact), nv), tol_x, 'an earlier expm_krylov result was altered by later calls', None)
         ctx.hold(later)
     else:
         ctx.skip(f'{tag}.exact-when-exhausted')
@@ -118,6 +133,10 @@ def grid_case(ctx, idx, rng):
     amb = any(1e-8 <= r <= 1e-5 for r in res[:m])
     dtk = ('imag', 'real', 'complex')[idx % 3]
     dt = {'imag': 1j, 'real': -1.0, 'complex': (0.6 + 0.8j)}[dtk] * float(rng.uniform(0.05, 1.0))
+    if dtk == 'imag':
+        dt = 1j * float(rng.choice([-1, 1])) * long_dt(rng)
+    elif dtk == 'complex' and rng.random() < 0.3:
+        dt = complex(-float(rng.uniform(0.0, 0.3)), float(rng.choice([-1, 1])) * long_dt(rng))      # damped long real-time step
     ctx.case(('hermitian', 'm>n' if m > n else ('m=n' if m == n else 'm<n'), 'exhausted' if m >= kd else 'not-exhausted', spectrum, start,
               'complex' if cplx else 'real', dtk), sample={'n': n, 'm': m, 'A': A, 'v': v, 'dt': dt, 'krylov_dim': kd})
     if amb:
@@ -177,7 +196,7 @@ def large_case(ctx, idx, rng):
     kd = kr.krylov_dim(res)
     if any(1e-8 <= r <= 1e-5 for r in res[:m]):
         kd = 10**9
-    dt = 1j * float(rng.uniform(0.05, 1.0))
+    dt = 1j * float(rng.choice([-1, 1])) * long_dt(rng)
     ctx.case(('hermitian', 'large-n', 'exhausted' if m >= kd else 'not-exhausted', spectrum, start), sample={'n': n, 'm': m, 'spectrum': spectrum, 'start': start})
     check_eigh(ctx, A, v, m, kd)
     check_expm(ctx, A, v, dt, m, kd, hermitian=True)
